@@ -450,32 +450,29 @@ func (s *Store) saveIndex() error {
 
 	// 1. Add descriptors that are associated with tags
 	// Note: One descriptor can be associated with multiple tags.
-	// On load the last entry of a digest decides what the digest resolves to.
-	// Entries that differ from the current by-digest descriptor (same content
-	// tagged under another media type) therefore go first.
-	var current []ocispec.Descriptor
+	// mixed holds the digests tagged under a media type other than the one
+	// the digest currently resolves to.
+	mixed := set.New[digest.Digest]()
 	for ref, desc := range refMap {
 		if ref != desc.Digest.String() {
-			byDigest, ok := refMap[desc.Digest.String()]
-			isCurrent := !ok || content.Equal(byDigest, desc)
+			if byDigest, ok := refMap[desc.Digest.String()]; ok && byDigest.MediaType != desc.MediaType {
+				mixed.Add(desc.Digest)
+			}
 			annotations := make(map[string]string, len(desc.Annotations)+1)
 			maps.Copy(annotations, desc.Annotations)
 			annotations[ocispec.AnnotationRefName] = ref
 			desc.Annotations = annotations
-			if isCurrent {
-				current = append(current, desc)
-			} else {
-				manifests = append(manifests, desc)
-			}
+			manifests = append(manifests, desc)
 			// mark the digest as tagged for deduplication in step 2
 			tagged.Add(desc.Digest)
 		}
 	}
-	manifests = append(manifests, current...)
 	// 2. Add descriptors that are not associated with any tag
 	for ref, desc := range refMap {
-		if ref == desc.Digest.String() && !tagged.Contains(desc.Digest) {
-			// skip tagged ones since they have been added in step 1
+		// Skip tagged ones since they have been added in step 1, unless the
+		// tags do not tell what the digest resolves to: on load the last
+		// entry of a digest decides, so the by-digest descriptor goes last.
+		if ref == desc.Digest.String() && (!tagged.Contains(desc.Digest) || mixed.Contains(desc.Digest)) {
 			manifests = append(manifests, deleteAnnotationRefName(desc))
 		}
 	}
